@@ -84,7 +84,7 @@ def value_strategy(validator, depth=0):
     base = name.replace("_or_token", "")
     good = junk
     if base in ("int", "float", "num"):
-        nums = [0, 1, -1, 5, 255, 256, "3", "-3", 2.5, "2.5"]
+        nums = [0, 1, -1, 5, 255, 256, "3", "-3", 2.5, "2.5", "nan", "inf", "-inf", float("nan"), float("inf"), "1e400"]
         if param:
             lo, hi = param.split(",")
             for b in (lo, hi):
